@@ -368,7 +368,7 @@ struct C19 : Property
 						ctx.fail("C19:new-failed", "printbuf_new failed without an injected fault");
 					// an allocation failure while creating: nothing may be left behind
 					if (!g_alloc.live.empty())
-						ctx.fail("C19:leak@" + g_alloc.site_of(g_alloc.live.begin()->second), "failed printbuf_new left %zu allocation(s):%s", g_alloc.live.size(), g_alloc.describe_live().c_str());
+						ctx.fail("C19:leak@" + g_alloc.first_live_site(), "failed printbuf_new left %zu allocation(s):%s", g_alloc.live.size(), g_alloc.describe_live().c_str());
 					disarm_faults();
 					s.pb = LIB(printbuf_new());
 					if (!s.pb)
@@ -424,7 +424,7 @@ struct C19 : Property
 		}
 		LIBV(printbuf_free(s.pb));
 		if (!g_alloc.live.empty())
-			ctx.fail("C19:leak@" + g_alloc.site_of(g_alloc.live.begin()->second), "after printbuf_free %zu allocation(s) remain:%s", g_alloc.live.size(),
+			ctx.fail("C19:leak@" + g_alloc.first_live_site(), "after printbuf_free %zu allocation(s) remain:%s", g_alloc.live.size(),
 			         g_alloc.describe_live().c_str());
 	}
 };
